@@ -835,9 +835,19 @@ fn add_keys_via(c: &mut ArchiveReaderConfig, keys: &[StaticSecret], h: u64) {
     }
 }
 
+/// a fresh reader configuration: `new()` or the derived `default()` (both are public ways to obtain one)
+fn reader_base(h: u64) -> ArchiveReaderConfig {
+    if (h >> 4) % 2 == 0 {
+        ArchiveReaderConfig::new()
+    } else {
+        ArchiveReaderConfig::default()
+    }
+}
+
 pub fn reader_config(keys: &[StaticSecret]) -> ArchiveReaderConfig {
-    let mut c = ArchiveReaderConfig::new();
-    add_keys_via(&mut c, keys, reader_history(keys));
+    let h = reader_history(keys);
+    let mut c = reader_base(h);
+    add_keys_via(&mut c, keys, h);
     c
 }
 
@@ -956,7 +966,7 @@ pub fn repair_from<R: Read>(src: R, keys: &[StaticSecret], authenticated: bool) 
     let r = util::catch(|| {
         // the repair mode is chosen before or after the keys are given
         let h = reader_history(keys);
-        let mut cfg = ArchiveReaderConfig::new();
+        let mut cfg = reader_base(h);
         let set_mode = |cfg: &mut ArchiveReaderConfig| {
             if authenticated {
                 cfg.failsafe_return_only_authenticated_data();
